@@ -261,6 +261,7 @@ pub mod verif_h2fc {
             incremental_mode,
             incremental_peer_count,
             pending_table_size_update: None,
+            pending_table_size_min: None,
             size_update_emitted: false,
             pending_oversized_abort: false,
         };
@@ -338,6 +339,7 @@ pub mod verif_c01 {
                 incremental_mode: false,
                 incremental_peer_count: 0,
                 pending_table_size_update: None,
+                pending_table_size_min: None,
                 size_update_emitted: false,
                 pending_oversized_abort: false,
             };
@@ -402,6 +404,7 @@ pub mod verif_c01 {
                 incremental_mode: false,
                 incremental_peer_count: 0,
                 pending_table_size_update: None,
+                pending_table_size_min: None,
                 size_update_emitted: false,
                 pending_oversized_abort: false,
             };
